@@ -55,7 +55,7 @@ CHECKS["C03"] = dict(
         ob("VH_C03_links", dict(K=3, N=2), T, covers=["order-rejected", "link-rejected", "link-accepted", "all-accepted"], bounds="3 entries, path 1..2 bytes, linkname 0..2 bytes"),
         ob("VH_C03_hostile", dict(K=1), covers=["offending", "link-to-unknown", "unrequested-data", "legal-accepted"], bounds="1 hostile packet: 13 candidate paths x 6 link names x fully symbolic 32-bit mode, or DATA with symbolic id; destination with symlinks to an outside file and directory; model FS"),
         ob("VH_C03_hostile", dict(K=2, R=1), Q, covers=["offending", "link-to-unknown", "unrequested-data", "legal-accepted"], bounds="2 hostile packets over reduced candidate lists (5 paths x 3 link names), symbolic modes"),
-        ob("VH_C03_hostile", dict(K=3, DMIN=8, DEEP=10), Q, covers=["offending", "legal-accepted"], bounds="3 hostile packets {m, m/f} x {no link, link to an outside directory} x symbolic modes below a well-formed chain of 8..10 nested directories; the peer may keep serving after its offending packet"),
+        ob("VH_C03_hostile", dict(K=3, DMIN=9, DEEP=10), Q, covers=["offending", "legal-accepted"], bounds="3 hostile packets {m, m/f, n} x {no link, link to an outside directory} x {dir, file, symlink} below a well-formed chain of 9..10 nested directories; the peer may keep serving after its offending packet"),
         ob("VH_C03_hostile", dict(K=3, DMIN=1, DEEP=21), T, covers=["offending", "legal-accepted"], bounds="the same below chains of every depth 1..21", max_paths=2000000),
         ob("VH_C03_hostile", dict(K=2), T, covers=["offending", "link-to-unknown", "unrequested-data", "legal-accepted"], bounds="2 hostile packets over the full candidate lists"),
         ob("VH_C03_hostile", dict(K=3, R=1), T, covers=["offending", "link-to-unknown", "unrequested-data", "legal-accepted"], bounds="3 hostile packets over reduced candidate lists", max_paths=400000),
